@@ -11,6 +11,7 @@ import (
 	"sort"
 	"strconv"
 	"strings"
+	"syscall"
 	"time"
 
 	"github.com/google/go-configfs-tsm/configfs/configfsi"
@@ -29,11 +30,11 @@ type memTsm struct {
 }
 
 type tsmEntry struct {
-	name   string
-	pos    int // 1-based creation position
-	idx    int // -1 unbound
-	ids    []int
-	value  []byte // real register value: SHA-384 extend chain
+	name  string
+	pos   int // 1-based creation position
+	idx   int // -1 unbound
+	ids   []int
+	value []byte // real register value: SHA-384 extend chain
 }
 
 type dirEntry struct{ name string }
@@ -161,6 +162,11 @@ func (t *memTsm) WriteFile(name string, contents []byte) error {
 		h.Write(e.value)
 		h.Write(contents)
 		e.value = h.Sum(nil)
+		if t.fault == "digestLate" { // the extend took effect; the write is nevertheless reported as failed, once
+			t.fault = ""
+			ev["failed"] = true
+			return &fs.PathError{Op: "write", Path: name, Err: syscall.EBUSY}
+		}
 		return nil
 	}
 	return fmt.Errorf("attribute %q is not writable", attr)
@@ -239,6 +245,12 @@ func RunRtmrCase(cs map[string]any, id int, seed int64) Result {
 			var log []byte
 			if r["log"] == "nonempty" {
 				log = RandBytes(rng, 1+rng.Intn(200))
+			} else if ls, _ := r["log"].(string); strings.HasPrefix(ls, "len") { // a log of exactly that many bytes
+				n, err := strconv.Atoi(ls[3:])
+				if err != nil {
+					panic("bad log " + ls)
+				}
+				log = RandBytes(rng, n)
 			} else if rng.Intn(2) == 0 {
 				log = []byte{}
 			}
@@ -259,6 +271,12 @@ func RunRtmrCase(cs map[string]any, id int, seed int64) Result {
 			// decoys: the other hashes of the same log must not be what gets written
 			out = Guard(90*time.Second, func() error { return rtmr.ExtendEventLogClient(t, index, h, log) })
 		}
+		lateApplied := false // the scripted "reported as failed after taking effect" fault fired in this call
+		for _, e := range t.events {
+			if e["attr"] == "digest" && e["failed"] == true && r["fault"] == "digestLate" {
+				lateApplied = true
+			}
+		}
 		evs = append(evs, t.events...)
 		t.events = nil
 		kind := "ok"
@@ -270,7 +288,7 @@ func RunRtmrCase(cs map[string]any, id int, seed int64) Result {
 		case out.Err != nil:
 			kind = "error"
 		}
-		if kind == "ok" && index >= 0 && index <= 3 {
+		if (kind == "ok" || (kind == "error" && lateApplied)) && index >= 0 && index <= 3 {
 			h := sha512.New384()
 			h.Write(expect[index])
 			h.Write(digest)
